@@ -1652,7 +1652,9 @@ GRIupdatemeta(int32 hdf_file_id, ri_info_t *img_ptr)
     ntstring[1] = (uint8)img_ptr->img_dim.nt;                  /* type */
     ntstring[2] = (uint8)(DFKNTsize(img_ptr->img_dim.nt) * 8); /* width: RIG data is 8-bit chars */
     ntstring[3] = DFNTC_BYTE;                                  /* class: data are numeric values */
-    if (img_ptr->img_dim.nt & DFNT_LITEND)
+    if (img_ptr->img_dim.nt & DFNT_NATIVE)
+        ntstring[3] = (uint8)DFKgetPNSC(img_ptr->img_dim.nt & (~DFNT_NATIVE), DF_MT); /* native data */
+    else if (img_ptr->img_dim.nt & DFNT_LITEND)
         ntstring[3] = DFNTF_PC; /* little-endian data: readers restore DFNT_LITEND from the subclass */
     if (Hputelement(hdf_file_id, img_ptr->img_dim.nt_tag, img_ptr->img_dim.nt_ref, ntstring, (int32)4) ==
         FAIL)
